@@ -42,6 +42,13 @@ impl Outcome {
         }
     }
     pub fn take_trace(&mut self, seed: u64, sim: &mut Sim) {
+        // C07 evidence: how often the 3x oracle judged a datagram, how often while the connection's own flag already said
+        // "validated", and which causes of validation the harness observed (crate::addrval)
+        for (k, n) in [("amp-oracle:datagrams-judged", sim.av.judged), ("amp-oracle:judged-while-code-says-validated", sim.av.judged_code_validated), ("addr-validated-by:handshake-packet", sim.av.by_handshake), ("addr-validated-by:path-response", sim.av.by_response), ("addr-validated-by:token", sim.av.by_token), ("addrval-misaligned-records", sim.av.misaligned), ("addrval-handshake-packets-known-from-header-only", sim.av.by_header_bits_only)] {
+            if n > 0 {
+                self.count(k, n);
+            }
+        }
         if !sim.model_ops.is_empty() {
             self.model_ops.push(format!("case sim-{seed}"));
             self.model_impl.push(format!("case sim-{seed}"));
@@ -417,6 +424,22 @@ pub fn amp(seed: u64, out: &mut Outcome) {
             let junk = *rng.pick(&[0usize, 0, 1, 50, 600, 1200]);
             data.extend(rng.bytes(junk));
             pending_attacks.push((at, Dgram { at: 0, seq: 0, from, to: sim.nodes[SERVER].addr, ecn: None, data, origin: usize::MAX, genuine: true }));
+            // "partial and repeated handshakes": half of the vanishing clients retransmit their Initial once or twice (their own
+            // probe timeout fires; still no Handshake packet, so still no proof that anybody reads what is sent to the address).
+            // Drawn from a fork of the generator, so recorded seeds keep replaying
+            let mut r2 = Rng::new(seed ^ 0xb2b2 ^ (i << 20));
+            if r2.chance(1, 2) {
+                for _ in 0..r2.range(1, 2) {
+                    s2.now += 4_000_000_000;
+                    let now2 = s2.t();
+                    s2.conn(CLIENT, ch).handle_timeout(now2);
+                    let mut buf2 = Vec::new();
+                    if let Some(t2) = s2.conn(CLIENT, ch).poll_transmit(now2, 1, &mut buf2) {
+                        let at2 = at + r2.range(1_000_000, 3_000_000_000);
+                        pending_attacks.push((at2, Dgram { at: 0, seq: 0, from, to: sim.nodes[SERVER].addr, ecn: None, data: buf2[..t2.size].to_vec(), origin: usize::MAX, genuine: true }));
+                    }
+                }
+            }
         }
     }
     let n_garbage = rng.below(30);
@@ -580,8 +603,12 @@ pub fn close(seed: u64, out: &mut Outcome) {
                 closer_had_hs_keys[node] = before.spaces[0].has_keys || before.spaces[1].has_keys;
                 let mut buf = Vec::new();
                 let t = sim.conn(node, ch).poll_transmit(now, 1, &mut buf);
-                let blocked_by_amp = !before.path.validated && before.path.total_sent >= 3 * before.path.total_recvd;
-                let has_keys = before.spaces.iter().any(|s| s.has_keys);
+                // the only excuse for silence is the anti-amplification limit, and only towards an address the HARNESS has not
+                // seen validated either (crate::addrval): a path wrongly kept unvalidated, or keys dropped too early, excuse nothing
+                // (an open connection always holds the keys of at least one packet number space)
+                let peer_validated = sim.av.is_validated(node, ch, &before.path.remote);
+                let blocked_by_amp = !peer_validated && !before.path.validated && before.path.total_sent >= 3 * before.path.total_recvd;
+                let has_keys = true;
                 match t {
                     Some(t) => {
                         close_tx_ok.push((node, true));
@@ -693,7 +720,7 @@ pub fn close(seed: u64, out: &mut Outcome) {
                     None => sim.fail("drain-never", format!("node {node}: closed at {t0}, never drained by {}", sim.now)),
                 }
             }
-            if sn.state != "drained" && acted_at.is_some() && action != 6 {
+            if (sn.state != "drained" || drained_at.is_none()) && acted_at.is_some() && action != 6 {
                 // whatever happened, 90 s later everything must have drained (idle timeout <= 30 s)
                 sim.fail("drain-never", format!("node {node} conn {ch} still {} at the end (action {action})", sn.state));
             }
